@@ -126,6 +126,16 @@ def scenarios(tier):
     S.append(mk("direct-vs-relay-race-dev", dict(r_listens=True, relay=True, chunking="whole", conn_fail=False), dev_bound=3 if q else 4, max_depth=150))
     S.append(mk("two-relays", dict(relay=True, relay2=True, chunking="whole", conn_fail=False, **L), max_depth=140, max_states=600000 if q else 3000000))
     S.append(mk("two-relays-timers-dev", dict(relay=True, relay2=True, chunking="whole", conn_fail=False), dev_bound=3 if q else 4, max_depth=200))
+    # transit.py keeps contenders / Deferreds in sets of id-hashed objects and iterates them (cancel the losers, pick among
+    # finished ones): the scenarios above see them in insertion order, these see them in reverse order
+    if q:
+        S.append(mk("two-relays-revsets-dev", dict(relay=True, relay2=True, chunking="whole", conn_fail=False, set_order="rev", **L), dev_bound=3, max_depth=140))
+    else:
+        S.append(mk("two-relays-revsets", dict(relay=True, relay2=True, chunking="whole", conn_fail=False, set_order="rev", **L), max_depth=140, max_states=3000000))
+    S.append(mk("both-listen-race-revsets", dict(r_listens=True, s_listens=True, chunking=ch, conn_fail=True, set_order="rev", **L), max_depth=100,
+                max_states=1500000))
+    S.append(mk("all-three-paths-revsets", dict(r_listens=True, s_listens=True, relay=True, chunking="whole", conn_fail=False, set_order="rev", **L),
+                max_depth=150, max_states=3000000))
     S.append(mk("no-honest-path", dict(r_listens=True, chunking="whole"), max_depth=60))   # conn_fail explored: S's only attempt may fail
     for kind in (KINDS if not q else ["junk", "partial", "otherkey", "go-early", "late-diverge", "reflect"]):
         S.append(mk("stranger-in-%s" % kind, dict(r_listens=True, strangers=[(kind, "R-listener")], chunking="whole", conn_fail=False, **L),
